@@ -33,6 +33,9 @@ type Obligation struct {
 	Model  map[string]string
 	Raw    string
 	RP     *replayCtx
+	// Definite: a refutation is reported as a violation even for an obligation that is not in the
+	// baseline (lock-state preconditions: the ghost lock state is exact along every path)
+	Definite bool
 }
 
 type inputSym struct {
